@@ -128,7 +128,7 @@ def affine(kind: str):
 
 def structured_geometry(conv: str, ny: int, nx: int, *, shape: str = "skew", bounds: bool = True,
                         holes: list[tuple[int, int]] | None = None, descending=(False, False),
-                        nonuniform: bool = False) -> dict:
+                        nonuniform: bool = False, orphan_nodes: bool = False) -> dict:
     """Abstract geometry (quanta) for a structured convention.
 
     Returns a dict with, depending on the convention:
@@ -190,6 +190,10 @@ def structured_geometry(conv: str, ny: int, nx: int, *, shape: str = "skew", bou
     wet = [[(j, i) not in holes for i in range(nx)] for j in range(ny)]
 
     def node_wet(j, i):
+        if orphan_nodes and (j in (0, ny) or i in (0, nx)):
+            # nodes on the rim keep their coordinates even when every cell they belong to is a hole ("orphan" nodes:
+            # they have coordinates but are a corner of no complete cell)
+            return True
         return any(0 <= jj < ny and 0 <= ii < nx and wet[jj][ii]
                    for jj in (j - 1, j) for ii in (i - 1, i))
     xg = [[node[j][i][0] if node_wet(j, i) else NANQ for i in range(nx + 1)] for j in range(ny + 1)]
@@ -587,6 +591,17 @@ def _build_ugrid(w):
 def bind(w: dict, ds: xarray.Dataset):
     """Return the convention object emsarray itself chooses (detected), except for plain
     Arakawa C which has to be constructed by hand."""
+    if w.get("decoy"):
+        # earlier in the same process a look-alike was asked for its convention: the same variables on the same dimensions,
+        # without the global attributes that mark the convention.  What is decided for THIS dataset depends on it alone.
+        look_alike = ds.copy()
+        look_alike.attrs = {k: v for k, v in ds.attrs.items() if k not in ("ems_version", "Conventions")}
+        try:
+            import emsarray
+            emsarray.get_dataset_convention(look_alike)
+            look_alike.ems
+        except Exception:
+            pass
     if w["conv"] == "arakawa":
         from emsarray.conventions.arakawa_c import ArakawaC
         names = arakawa_coord_names(w)
